@@ -254,6 +254,9 @@ structure Imp where
   /-- numbers the next `new JunctionRef` / `new ConnRef` get -/
   nextJ : Nat
   nextC : Nat
+  /-- which `removeZeroLengthEdges` is modelled: `true` = /repo since fix 6964517 (a terminal leaf that is
+      merged into its neighbour hands its attributes to the surviving node), `false` = the code as found -/
+  keepAttrs : Bool := true
   deriving Repr, Inhabited
 
 /-- junction bookkeeping as an executable check: no junction attached to two nodes; the junction map
@@ -277,6 +280,23 @@ def contract (t : HTree) (e target source : Nat) : Option HTree := do
   let t2 := t1.deleteEdge e
   let t3 ← spliceEdgesFrom t2 target source
   pure (t3.deleteNode source)
+
+/-- fix 6964517, between `delete edge;` and `target->spliceEdgesFrom(source);`:
+    `if (source->edges.empty()) { target->isConnectorSource = source->isConnectorSource; … }` — `source` has
+    no edge left after the disconnection of `e` iff its list without `e` is empty -/
+def keepTerminalAttrs (t : HTree) (e target source : Nat) : HTree :=
+  match t.node? source with
+  | some so =>
+    if (so.edges.filter (fun i => i != e)).isEmpty then
+      t.modNode target (fun x => { x with isConnectorSource := so.isConnectorSource,
+                                          isPinDummyEndpoint := so.isPinDummyEndpoint,
+                                          finalVertex := so.finalVertex })
+    else t
+  | none => t
+
+/-- the heap on which the contraction sequence of `removeZeroLengthEdges` runs -/
+def rzlePrep (s1 : Imp) (e target source : Nat) : HTree :=
+  if s1.keepAttrs then keepTerminalAttrs s1.t e target source else s1.t
 
 /-- what `removeZeroLengthEdges(node, ignored)` decides for one zero-length, non-fixed edge between
     `self` and `other`: `(target, source, bookkeeping-updated state)` or nothing (two junctions and no
@@ -337,7 +357,7 @@ def rzleLoop : Nat → Imp → Nat → Option Nat → List Nat → Option Imp
       if !sn.edges.contains eid then none else
       match rzleDec s e sn self with
       | some (target, source, s1) =>
-        match contract s1.t eid target source with
+        match contract (rzlePrep s1 eid target source) eid target source with
         | none => none
         | some t2 => rzleNode f { s1 with t := t2 } target ignored      -- `…; return;`
       | none =>
@@ -366,6 +386,11 @@ def rzleEdge : Nat → Imp → Nat → Nat → Option Imp
             | none => none
             | some b => if b != ignored then rzleNode f s1 b (some eid) else some s1
 end
+
+/-- `removeZeroLengthEdges(node, ignored)` AS FOUND (before fix 6964517): the attributes of a merged
+    terminal leaf are dropped -/
+def rzleNodeOld (f : Nat) (s : Imp) (self : Nat) (ign : Option Nat) : Option Imp :=
+  rzleNode f { s with keepAttrs := false } self ign
 
 /-- fuel that suffices on a tree: every contraction restarts the traversal of one node -/
 def rzleFuel (t : HTree) : Nat := 4 * (t.nodes.length + t.edges.length + 2) * (t.edges.length + 2)
